@@ -363,6 +363,21 @@ func (cp *CollectingProcess) decodeDataSet(dataBuffer *bytes.Buffer, obsDomainID
 		return nil, err
 	}
 
+	// A data record cannot be shorter than minRecordLength (variable-length fields need at
+	// least their one-byte length prefix).
+	minRecordLength := 0
+	for _, ie := range template {
+		if ie.Len == entities.VariableLength {
+			minRecordLength += 1
+		} else {
+			minRecordLength += int(ie.Len)
+		}
+	}
+	if minRecordLength == 0 {
+		// Decoding such records would never consume any input.
+		return nil, fmt.Errorf("template %d with obsDomainID %d defines zero-length data records", templateID, obsDomainID)
+	}
+
 	for dataBuffer.Len() > 0 {
 		elements := make([]entities.InfoElementWithValue, 0, len(template)+cp.numExtraElements)
 		for _, ie := range template {
